@@ -685,7 +685,7 @@ def simulate(rng, tmp, p):
     return sim
 
 
-def truth_phased_doc(sim, rng, tag="PS", block_len=(3, 8), samples=None, interleave=False, flip_blocks=True, no_ps=False):
+def truth_phased_doc(sim, rng, tag="PS", block_len=(3, 8), samples=None, interleave=False, flip_blocks=True, no_ps=False, hp_unsorted=0.0):
     """A copy of sim.doc in which heterozygous calls of `samples` carry the TRUE phase, encoded with PS or HP, cut into
     blocks of random length (optionally two interleaved block series). Returns (doc, blocks) where
     blocks[(chrom, sample)] = {block_id: [(pos1, (a0, a1)), ...]}."""
@@ -735,6 +735,8 @@ def truth_phased_doc(sim, rng, tag="PS", block_len=(3, 8), samples=None, interle
                         call["PS"] = str(st[0])
                 else:
                     g = sorted(al)
+                    if hp_unsorted and rng.random() < hp_unsorted:
+                        g.reverse()  # GT written in descending order (1/0), HP relative to that order: legal, other tools write it
                     call["GT"] = "%d/%d" % (g[0], g[1])
                     # k-th GT allele lies on haplotype (index of that allele in al) + 1
                     call["HP"] = ",".join("%d-%d" % (st[0], al.index(x) + 1) for x in g)
